@@ -1,6 +1,7 @@
 package simrt
 
 import (
+	"errors"
 	"fmt"
 	"io"
 	"log"
@@ -64,6 +65,36 @@ func IterForEach[T any](site string, input []T, f func(*T), orig func([]T, func(
 		return
 	}
 	iterRun(site, len(input), func(i int) { f(&input[i]) })
+}
+
+// IterMapErr replaces conc/iter.MapErr: the results in input order and the
+// errors joined in the order in which the calls failed.
+func IterMapErr[T, R any](site string, input []T, f func(*T) (R, error), orig func([]T, func(*T) (R, error)) ([]R, error)) ([]R, error) {
+	if mode.Load() != ModeSerial || cur.me() == nil {
+		if mode.Load() == ModePerturb {
+			perturb(site)
+		}
+		return orig(input, f)
+	}
+	res := make([]R, len(input))
+	var errs error
+	iterRun(site, len(input), func(i int) {
+		var err error
+		res[i], err = f(&input[i])
+		if err != nil {
+			errs = errors.Join(errs, err) // only one task runs at a time
+		}
+	})
+	return res, errs
+}
+
+// IterForEachIdx replaces conc/iter.ForEachIdx.
+func IterForEachIdx[T any](site string, input []T, f func(int, *T), orig func([]T, func(int, *T))) {
+	if mode.Load() != ModeSerial || cur.me() == nil {
+		orig(input, f)
+		return
+	}
+	iterRun(site, len(input), func(i int) { f(i, &input[i]) })
 }
 
 func iterRun(site string, n int, body func(i int)) {
@@ -182,4 +213,126 @@ func (p *Pool) Put(x any) {
 	p.mu.Lock()
 	p.items = append(p.items, x)
 	p.mu.Unlock()
+}
+
+// SyncMap replaces sync.Map in instrumented code. Under the serialising
+// scheduler only one task runs at a time, so a plain map is enough; every
+// operation is a scheduling point (another task may run between two
+// operations, never inside one: sync.Map's operations are atomic), and Range
+// visits the keys in the run's seeded map order. In the other modes the real
+// sync.Map does the work.
+type SyncMap struct {
+	real sync.Map
+	m    map[any]any
+}
+
+func (s *SyncMap) serial() bool {
+	if mode.Load() != ModeSerial || cur.me() == nil {
+		return false
+	}
+	if s.m == nil {
+		s.m = map[any]any{}
+	}
+	Yield("sync.Map")
+	return true
+}
+
+func (s *SyncMap) Load(key any) (any, bool) {
+	if !s.serial() {
+		return s.real.Load(key)
+	}
+	v, ok := s.m[key]
+	return v, ok
+}
+
+func (s *SyncMap) Store(key, value any) {
+	if !s.serial() {
+		s.real.Store(key, value)
+		return
+	}
+	s.m[key] = value
+}
+
+func (s *SyncMap) LoadOrStore(key, value any) (any, bool) {
+	if !s.serial() {
+		return s.real.LoadOrStore(key, value)
+	}
+	if v, ok := s.m[key]; ok {
+		return v, true
+	}
+	s.m[key] = value
+	return value, false
+}
+
+func (s *SyncMap) LoadAndDelete(key any) (any, bool) {
+	if !s.serial() {
+		return s.real.LoadAndDelete(key)
+	}
+	v, ok := s.m[key]
+	delete(s.m, key)
+	return v, ok
+}
+
+func (s *SyncMap) Delete(key any) {
+	if !s.serial() {
+		s.real.Delete(key)
+		return
+	}
+	delete(s.m, key)
+}
+
+func (s *SyncMap) Swap(key, value any) (any, bool) {
+	if !s.serial() {
+		return s.real.Swap(key, value)
+	}
+	v, ok := s.m[key]
+	s.m[key] = value
+	return v, ok
+}
+
+func (s *SyncMap) CompareAndSwap(key, old, new any) bool {
+	if !s.serial() {
+		return s.real.CompareAndSwap(key, old, new)
+	}
+	if v, ok := s.m[key]; ok && v == old {
+		s.m[key] = new
+		return true
+	}
+	return false
+}
+
+func (s *SyncMap) CompareAndDelete(key, old any) bool {
+	if !s.serial() {
+		return s.real.CompareAndDelete(key, old)
+	}
+	if v, ok := s.m[key]; ok && v == old {
+		delete(s.m, key)
+		return true
+	}
+	return false
+}
+
+func (s *SyncMap) Clear() {
+	if !s.serial() {
+		s.real.Clear()
+		return
+	}
+	s.m = map[any]any{}
+}
+
+func (s *SyncMap) Range(f func(key, value any) bool) {
+	if !s.serial() {
+		s.real.Range(f)
+		return
+	}
+	for _, e := range MapRange("sync.Map.Range", s.m) {
+		v, ok := s.m[e.K] // a key deleted meanwhile is not visited
+		if !ok {
+			continue
+		}
+		if !f(e.K, v) {
+			return
+		}
+		Yield("sync.Map")
+	}
 }
